@@ -144,14 +144,59 @@ func run(e *core.Env) {
 	if tp.Chance(1, 2) {
 		edges = append(edges, [2]int{2, 3})
 	}
-	ms := mesh.Build(e, mesh.Options{MinNodes: 4, MaxNodes: 4, Edges: edges, Idents: ids, Tun: true, TwoByteLabels: true})
+	// In half of the runs two more routers sit behind Z (Z - T1 - T2), and the announcements
+	// that Z and T1 issue themselves never reach V (a router sheds frames when its worker is
+	// busy): V then meets Z and T1 for the first time as relays inside T2's announcement.
+	tail := tp.Chance(1, 2)
+	nNodes := 4
+	if tail {
+		ids = append(ids, ident.Get(ident.Routable, perm[4]), ident.Get(ident.Routable, perm[5]))
+		edges = append(edges, [2]int{3, 4}, [2]int{4, 5})
+		nNodes = 6
+		e.Probe("routers_first_met_as_relays")
+	}
+	ms := mesh.Build(e, mesh.Options{MinNodes: nNodes, MaxNodes: nNodes, Edges: edges, Idents: ids, Tun: true, TwoByteLabels: true})
 	V, X, Y, Z := ms.Nodes[0], ms.Nodes[1], ms.Nodes[2], ms.Nodes[3]
 	names := map[netip.Addr]string{V.IP: "V", X.IP: "X", Y.IP: "Y", Z.IP: "Z"}
+	if tail {
+		names[ms.Nodes[4].IP], names[ms.Nodes[5].IP] = "T1", "T2"
+	}
 	ghost := ident.Get(ident.Routable, 30)
 	parser := frame.NewFrameBuilder()
 
-	ms.Net.RunFor(tp, 5*time.Second+200*time.Millisecond, 20000)
-	ms.Net.DrainFIFO(tp, 20000)
+	if tail {
+		end := time.Now().Add(5*time.Second + 200*time.Millisecond)
+		for guard := 0; guard < 40000; guard++ {
+			var next *simnet.Packet
+			for _, p := range ms.Net.Heads() {
+				if p.To.Local == V && !p.EOF {
+					if f, err := mesh.ParseCrossing(parser, p.Data); err == nil {
+						v, isAnn := mesh.ViewAnnounce(f)
+						f.ReturnToPool()
+						if isAnn && (v.Origin == Z.IP || v.Origin == ms.Nodes[4].IP) {
+							ms.Net.Remove(p)
+							e.Fault("drop")
+							continue
+						}
+					}
+				}
+				next = p
+				break
+			}
+			if next != nil {
+				ms.Net.Deliver(next)
+				continue
+			}
+			if !time.Now().Before(end) {
+				break
+			}
+			time.Sleep(50 * time.Millisecond)
+			simnet.Wait()
+		}
+	} else {
+		ms.Net.RunFor(tp, 5*time.Second+200*time.Millisecond, 20000)
+		ms.Net.DrainFIFO(tp, 20000)
+	}
 	// End-to-end keys V<->X (both directions of hello are exercised later again).
 	if _, err := X.Router.HelloPing.Send(V.IP); err == nil {
 		simnet.Wait()
@@ -350,6 +395,37 @@ func run(e *core.Env) {
 							e.Fault("inject")
 						}
 						f.ReturnToPool()
+					}
+				}
+			}
+			// (a''') the source rewritten to another router of the mesh, signed correctly - but by
+			// a third router's key: which key V holds for a router must not depend on what else it
+			// has seen
+			if orig[4] != 2 && tp.Chance(1, 3) {
+				for _, h := range ms.Nodes {
+					if h == V || h == X {
+						continue
+					}
+					for _, q := range ms.Nodes {
+						if q == V || q == h {
+							continue
+						}
+						mut := append([]byte(nil), orig...)
+						a := h.IP.As16()
+						copy(mut[16:32], a[:])
+						if f, err := mesh.ParseCrossing(parser, mut); err == nil {
+							if fv, ok := f.(*frame.FrameV1); ok {
+								ttl := fv.TTL()
+								fv.SetTTL(0)
+								clear(fv.AuthData())
+								_ = fv.SignRaw(q.ID.PrivateKey)
+								fv.SetTTL(ttl)
+								d, _ := fv.FrameDataWithMargins(0, 0)
+								trial(kind, "signed-by-third-router", linkXV, append([]byte(nil), d...), false)
+								e.Fault("inject")
+							}
+							f.ReturnToPool()
+						}
 					}
 				}
 			}
